@@ -287,6 +287,10 @@ func (r *R) Scalar(kind string, o Options) V {
 	case "errv3":
 		v.Text = r.Str(o.Str)
 		v.Go = errorsv3.New(safeFmt(v.Text))
+		if r.P(12) {
+			// ... made with a skip count beyond the stack: an error of the same type whose stack trace is EMPTY
+			v.Go = errorsv3.New(safeFmt(v.Text)).WithSkip(100)
+		}
 		v.Text = v.Go.(error).Error()
 	case "stringer":
 		v.Text = r.Str(o.Str)
